@@ -413,6 +413,36 @@ func valuesUnder(v ssa.Value, fn *ssa.Function, lits ...Lit) []ssa.Value {
 			}
 			return
 		}
+		// load of a local cell: the stores that can reach this load under the scenario
+		if u, ok := v.(*ssa.UnOp); ok && u.Op == token.MUL {
+			if a, ok := u.X.(*ssa.Alloc); ok {
+				var stores []*ssa.Store
+				for _, ref := range *a.Referrers() {
+					if st, ok := ref.(*ssa.Store); ok && st.Addr == ssa.Value(a) {
+						stores = append(stores, st)
+					}
+				}
+				found := false
+				for _, st := range stores {
+					if !reach[st] {
+						continue
+					}
+					rq, _ := reachUnder(fn, lits...)
+					for _, o := range stores {
+						if o != st {
+							rq.CutInstrs[o] = true
+						}
+					}
+					if rq.After(st)[u] {
+						found = true
+						walk(st.Val)
+					}
+				}
+				if found {
+					return
+				}
+			}
+		}
 		out = append(out, v)
 	}
 	walk(v)
